@@ -93,6 +93,11 @@ def argkey(e):
         if r is None:
             break
         e = r
+    # a named temporary for a pure call (`let n = left.chars().count();`) reads as that call
+    if e["k"] == "Path" and e["path"].get("res") == "local" and e["path"].get("hid") in LETS and e["path"].get("name") not in PARAMS:
+        i_ = strip(LETS[e["path"]["hid"]])
+        if i_["k"] in ("Call", "MethodCall") and not any(n.get("k") in ("Assign", "AssignOp") for n in hir.walk(i_)):
+            return "%s(..)" % hir.callee_name(i_)
     fp = field_path(e)
     if fp:
         tf = maps.table_field(fp)
